@@ -151,19 +151,24 @@ package eval
 //@   property C01 C07
 
 //@ func (*State).evalIndexExpressionIdx
-//@   requires s != nil && object.wfObj(left) && index != nil
+//@   requires s != nil
+//@   requires @C01,C07 object.wfObj(left) && index != nil
 //@   modifies heap
 //@   maypanic *
-//@   ensures  strin:: implies(isStr(left) && isInt(index) && 0 <= normIdx(intVal(index), len(strVal(left))) && normIdx(intVal(index), len(strVal(left))) < len(strVal(left)), isInt(result) && intVal(result) == strVal(left)[normIdx(intVal(index), len(strVal(left)))])
-//@   ensures  strout:: implies(isStr(left) && isInt(index) && (normIdx(intVal(index), len(strVal(left))) < 0 || normIdx(intVal(index), len(strVal(left))) >= len(strVal(left))), isNull(result))
-//@   ensures  arrin:: implies(object.isArr(left) && isInt(index) && 0 <= normIdx(intVal(index), object.seqLen(left)) && normIdx(intVal(index), object.seqLen(left)) < object.seqLen(left), result == object.seqAt(left, normIdx(intVal(index), object.seqLen(left))))
-//@   ensures  nil:: implies(isNull(left), isNull(result))
+//@   ensures  @C01 strin:: implies(isStr(left) && isInt(index) && 0 <= normIdx(intVal(index), len(strVal(left))) && normIdx(intVal(index), len(strVal(left))) < len(strVal(left)), isInt(result) && intVal(result) == strVal(left)[normIdx(intVal(index), len(strVal(left)))])
+//@   ensures  @C01 strout:: implies(isStr(left) && isInt(index) && (normIdx(intVal(index), len(strVal(left))) < 0 || normIdx(intVal(index), len(strVal(left))) >= len(strVal(left))), isNull(result))
+//@   ensures  @C01 arrin:: implies(object.isArr(left) && isInt(index) && 0 <= normIdx(intVal(index), object.seqLen(left)) && normIdx(intVal(index), object.seqLen(left)) < object.seqLen(left), result == object.seqAt(left, normIdx(intVal(index), object.seqLen(left))))
+//@   ensures  @C01 nil:: implies(isNull(left), isNull(result))
 //@   ensures  frame:: frame(s)
-//@   property C01 C07
+//@   ensures  regs:: regsame()
+//@   safety C01 C07
+//@   property C01 C07 C10
 
 // ---- session frame (C10, C09 depth, C05): every evaluation step returns with the scope, the recursion depth and
 // the output writer it was entered with (normal returns; panics are handled by repl.EvalOne, see C10). ----
 //@ define frame(s) = s.depth == old(s.depth) && s.env == old(s.env) && s.Out == old(s.Out) && s.env.numReg == old(s.env.numReg)
+// No scope that existed before the step has a different number of registers in use after it.
+//@ define regsame() = forallv(func(e *object.Environment) bool { return implies(old(allocated(e)), e.numReg == old(e.numReg)) })
 
 //@ func (*State).Eval
 //@   requires s != nil && s.env != nil
@@ -173,36 +178,45 @@ package eval
 //@   ensures  @assumed nonnil:: result != nil
 //@   ensures  @assumed wfval:: object.wfVal(result)
 //@   ensures  frame:: frame(s)
+//@   ensures  regs:: regsame()
 //@   ensures  depthguard:: old(s.depth) <= old(s.MaxDepth)
 //@   property C10 C09 C07
 
-// Verified members of the evaluator family.
-//@ funcs (*State).evalInternal, (*State).evalIfExpression, (*State).evalPostfixExpression
+// Members of the evaluator family: each is verified against the frame clause assuming the others' contracts.
+//@ funcs (*State).evalInternal, (*State).evalIfExpression, (*State).evalPostfixExpression, (*State).evalStatements, (*State).evalForExpression, (*State).evalForList, (*State).evalIdentifier, (*State).evalPrefixIncrDecr, (*State).evalAssignment, (*State).evalIndexAssigment, (*State).evalPipe, (*State).evalIndexExpression, (*State).evalMapLiteral, (*State).evalPrintLogError, (*State).evalDelete, (*State).deleteMapEntry, (*State).evalBuiltin, (*State).applyFunction, (*State).evalForSpecialForms
 //@   requires s != nil && s.env != nil
 //@   modifies heap
 //@   nosafety
 //@   maypanic *
+//@   loop * invariant s.depth == old(s.depth) && s.env == old(s.env) && s.Out == old(s.Out) && s.env.numReg == old(s.env.numReg)
+//@   loop * invariant regsame()
 //@   ensures  frame:: frame(s)
+//@   ensures  regs:: regsame()
 //@   property C10
 
-// Members whose frame clause is assumed for now (not yet verified: see DESIGN.md).
-//@ funcs (*State).evalStatements, (*State).evalForExpression, (*State).evalForList, (*State).evalIdentifier, (*State).evalPrefixIncrDecr, (*State).evalAssignment, (*State).evalIndexAssigment, (*State).evalPipe, (*State).evalIndexExpression, (*State).evalMapLiteral, (*State).evalPrintLogError, (*State).evalDelete, (*State).deleteMapEntry, (*State).evalBuiltin, (*State).applyFunction, (*State).evalForSpecialForms assumed
+// quote evaluates unquote() calls through an ast.Modify callback that re-enters evalInternal: the callback's frame
+// cannot be carried through the assumed ast.Modify contract, so the member is assumed.
+//@ func (*State).quote assumed
 //@   requires s != nil
 //@   modifies heap
 //@   ensures  frame:: frame(s)
+//@   ensures  regs:: regsame()
 
 //@ func (*State).evalIndexRangeExpression
-//@   requires s != nil && s.env != nil && object.plain(left) && object.wfArr(left)
+//@   requires s != nil && s.env != nil
+//@   requires @C01,C07 object.plain(left) && object.wfArr(left)
 //@   modifies heap
 //@   maypanic *
 //@   witness li = callresult after Eval#1
 //@   witness ri = callresult after Eval#2
-//@   ensures  strslice:: implies(isStr(left) && isInt(li) && rightIdx != nil && isInt(ri) && 0 <= intVal(li) && intVal(li) <= intVal(ri) && intVal(ri) <= len(strVal(left)), isStr(result) && strVal(result) == strVal(left)[intVal(li):intVal(ri)])
-//@   ensures  notint:: implies(!isInt(li) && !isReg(li), isErr(result))
-//@   ensures  badorder:: implies(isStr(left) && isInt(li) && rightIdx != nil && isInt(ri) && ite(intVal(li) < 0, max(intVal(li) + len(strVal(left)), 0), intVal(li)) > normIdx(intVal(ri), len(strVal(left))), isErr(result))
-//@   ensures  negslice:: implies(isStr(left) && isInt(li) && rightIdx != nil && isInt(ri) && intVal(li) < 0 && intVal(ri) < 0 && -len(strVal(left)) <= intVal(li) && intVal(li) <= intVal(ri), isStr(result) && strVal(result) == strVal(left)[intVal(li)+len(strVal(left)):intVal(ri)+len(strVal(left))])
+//@   ensures  @C01 strslice:: implies(isStr(left) && isInt(li) && rightIdx != nil && isInt(ri) && 0 <= intVal(li) && intVal(li) <= intVal(ri) && intVal(ri) <= len(strVal(left)), isStr(result) && strVal(result) == strVal(left)[intVal(li):intVal(ri)])
+//@   ensures  @C01 notint:: implies(!isInt(li) && !isReg(li), isErr(result))
+//@   ensures  @C01 badorder:: implies(isStr(left) && isInt(li) && rightIdx != nil && isInt(ri) && ite(intVal(li) < 0, max(intVal(li) + len(strVal(left)), 0), intVal(li)) > normIdx(intVal(ri), len(strVal(left))), isErr(result))
+//@   ensures  @C01 negslice:: implies(isStr(left) && isInt(li) && rightIdx != nil && isInt(ri) && intVal(li) < 0 && intVal(ri) < 0 && -len(strVal(left)) <= intVal(li) && intVal(li) <= intVal(ri), isStr(result) && strVal(result) == strVal(left)[intVal(li)+len(strVal(left)):intVal(ri)+len(strVal(left))])
 //@   ensures  frame:: frame(s)
-//@   property C01 C07
+//@   ensures  regs:: regsame()
+//@   safety C01 C07
+//@   property C01 C07 C10
 
 // applyExtension: what every extension callback may rely on (argument count within [MinArgs, MaxArgs]).
 //@ func (*State).applyExtension
@@ -213,8 +227,10 @@ package eval
 //@   dyncall Callback requires mincount:: len(arg2) >= fn.MinArgs
 //@   dyncall Callback requires maxcount:: fn.MaxArgs == -1 || len(arg2) <= fn.MaxArgs
 //@   dyncall Callback ensures s.depth == old(s.depth) && s.env == old(s.env) && s.Out == old(s.Out) && s.env.numReg == old(s.env.numReg) && result != nil
+//@   dyncall Callback ensures regsame()
 //@   ensures  frame:: frame(s)
-//@   property C07
+//@   ensures  regs:: regsame()
+//@   property C07 C10
 
 // Operators that grow strings / arrays: every allocation whose size is a program value must be covered by the
 // memory guard (guard.alloc obligations, generated for property C09), and size computations must not overflow.
@@ -243,7 +259,8 @@ package eval
 
 // ---- integer registers (C05): a counted loop leaves the register stack as it found it, on every exit ----
 //@ func setupRegister
-//@   requires env != nil && 0 <= env.numReg
+//@   requires env != nil
+//@   requires @C05,C07 0 <= env.numReg
 //@   requires capacity:: env.numReg < 8
 //@   modifies env.numReg, env.registers, map token.interning
 //@   trustframe
@@ -260,29 +277,36 @@ package eval
 //@   maypanic *
 //@   loop 1 invariant s.depth == old(s.depth) && s.env == old(s.env) && s.Out == old(s.Out) && s.env.numReg == old(s.env.numReg)
 //@   loop 1 invariant forall(0, len(result), func(k int) bool { return !isType(result[k], *object.Register) })
+//@   loop 1 invariant regsame()
 //@   ensures  frame:: frame(s)
+//@   ensures  regs:: regsame()
 //@   ensures  noreg:: implies(result1 == nil, forall(0, len(result0), func(k int) bool { return !isType(result0[k], *object.Register) }))
 //@   property C05 C10
 
 //@ func (*State).extendFunctionEnv
-//@   requires s != nil && currrentEnv != nil && (streq(currrentEnv.cacheKey, fn.CacheKey) || fn.Env != nil)
-//@   requires allocated(s.env)
+//@   requires s != nil && currrentEnv != nil && allocated(s.env)
+//@   requires @C05,C07 streq(currrentEnv.cacheKey, fn.CacheKey) || fn.Env != nil
 //@   modifies heap
 //@   nosafety
 //@   maypanic *
 //@   loop 1 invariant env != nil && 0 <= env.numReg && env.numReg <= 8 && env != old(s.env)
 //@   loop 1 invariant s.depth == old(s.depth) && s.env == old(s.env) && s.Out == old(s.Out) && s.env.numReg == old(s.env.numReg)
+//@   loop 1 invariant regsame()
 //@   ensures  frame:: frame(s)
+//@   ensures  regs:: regsame()
 //@   ensures  capacity:: implies(result2 == nil, result0 != nil && 0 <= result0.numReg && result0.numReg <= 8)
-//@   property C05
+//@   property C05 C10
 
 //@ func (*State).evalForInteger
-//@   requires s != nil && s.env != nil && 0 <= s.env.numReg
+//@   requires s != nil && s.env != nil
+//@   requires @C05,C07 0 <= s.env.numReg
 //@   modifies heap
 //@   nosafety
 //@   maypanic *
 //@   ensures  frame:: frame(s)
 //@   ensures  balance:: s.env.numReg == old(s.env.numReg)
+//@   ensures  regs:: regsame()
+//@   loop 1 invariant forallv(func(e *object.Environment) bool { return implies(old(allocated(e)) && e != s.env, e.numReg == old(e.numReg)) })
 //@   loop 1 invariant s.depth == old(s.depth) && s.env == old(s.env) && s.Out == old(s.Out)
 //@   loop 1 invariant s.env.numReg == old(s.env.numReg) + ite(ptr != nil, 1, 0)
 //@   property C05 C10
